@@ -455,7 +455,7 @@ pub fn fam_conc(tier: Tier) -> Vec<Config> {
     for nsc in 2..=max_sc {
         for (b, c) in &limits {
             for retry in [false, true] {
-                for split in [false, true] {
+                for (split, sync) in [(false, false), (true, false), (false, true)] {
                     let mut cfg = base(String::new());
                     let scs: Vec<ScenSpec> = (0..nsc).map(|_| scen(&[], &[M])).collect();
                     if split && nsc >= 2 {
@@ -468,8 +468,8 @@ pub fn fam_conc(tier: Tier) -> Vec<Config> {
                     }
                     cfg.conc_builder = *b;
                     cfg.conc_cli = *c;
-                    cfg.plan.gates = GateMode::Steps;
-                    cfg.expect_conservation = !retry;
+                    cfg.plan.gates = if sync { GateMode::None } else { GateMode::Steps };
+                    cfg.expect_conservation = !retry && !sync;
                     if retry {
                         cfg.retries_builder = Some(1);
                         let infos = cfg.scen_infos();
@@ -481,9 +481,10 @@ pub fn fam_conc(tier: Tier) -> Vec<Config> {
                     }
                     cfg.max_execs = if tier == Tier::Quick { 5_000 } else { 300_000 };
                     cfg.name = format!(
-                        "conc/n{nsc}|b{b:?}|c{c:?}|r{}|split{}",
+                        "conc/n{nsc}|b{b:?}|c{c:?}|r{}|split{}|sync{}",
                         u8::from(retry),
-                        u8::from(split)
+                        u8::from(split),
+                        u8::from(sync)
                     );
                     out.push(cfg);
                 }
@@ -513,10 +514,13 @@ pub fn fam_serial(tier: Tier) -> Vec<Config> {
     for place in ["scenario", "rule", "feature", "custom"] {
         for nconc in 1..=(if tier == Tier::Quick { 2 } else { 3 }) {
             for nser in 1..=2usize {
-                for conc in [Some(2usize), Some(3), None] {
+                for conc in [Some(1usize), Some(2), Some(3), None] {
                     for layout in ["same", "serial-first", "serial-last"] {
                         for lazy in [false, true] {
-                            for retry in ["none", "now", "delay"] {
+                            for retry in ["none", "now", "delay", "delay2"] {
+                                if retry == "delay2" && nser < 2 {
+                                    continue;
+                                }
                                 if place != "scenario" && layout == "same" {
                                     // whole feature/rule serial: needs its own feature
                                     continue;
@@ -532,7 +536,14 @@ pub fn fam_serial(tier: Tier) -> Vec<Config> {
                                     _ => {}
                                 }
                                 let ser: Vec<ScenSpec> = (0..nser)
-                                    .map(|_| ScenSpec { tags: ser_tags.clone(), steps: vec![M] })
+                                    .map(|i| {
+                                        let mut t = ser_tags.clone();
+                                        if retry == "delay2" {
+                                            // the later one waits longer: the retry queue head is not the first due
+                                            t.push(format!("retry(1).after({}s)", 5 * (i + 1)));
+                                        }
+                                        ScenSpec { tags: t, steps: vec![M] }
+                                    })
                                     .collect();
                                 let con: Vec<ScenSpec> = (0..nconc).map(|_| scen(&[], &[M])).collect();
                                 let mut cfg = base(String::new());
@@ -567,22 +578,28 @@ pub fn fam_serial(tier: Tier) -> Vec<Config> {
                                 cfg.lazy = lazy;
                                 cfg.plan.gates = GateMode::Steps;
                                 if retry != "none" {
-                                    // first serial scenario fails once
+                                    // first serial scenario fails once (all of them for `delay2`)
                                     let infos = cfg.scen_infos();
-                                    let k = infos
-                                        .iter()
-                                        .find(|i| i.has_tag(tagname))
-                                        .unwrap()
-                                        .calls[0]
-                                        .key
-                                        .clone();
-                                    cfg.plan.outcomes.insert(k, vec![Outcome::PanicString, Outcome::Pass]);
+                                    for i in infos.iter().filter(|i| i.has_tag(tagname)) {
+                                        cfg.plan
+                                            .outcomes
+                                            .insert(i.calls[0].key.clone(), vec![Outcome::PanicString, Outcome::Pass]);
+                                        if retry != "delay2" {
+                                            break;
+                                        }
+                                    }
                                 }
-                                if retry == "delay" {
+                                if retry == "delay" || retry == "delay2" {
                                     cfg.clock_budget = 1;
                                     cfg.clock_step = d + Duration::from_secs(1);
                                 }
-                                let gates = nconc + nser + usize::from(retry != "none")
+                                let gates = nconc
+                                    + nser
+                                    + match retry {
+                                        "none" => 0,
+                                        "delay2" => nser,
+                                        _ => 1,
+                                    }
                                     + if lazy { cfg.feats.len() } else { 0 };
                                 if gates > 5 {
                                     cfg.bound = Some(if tier == Tier::Quick { 2 } else { 3 });
@@ -721,7 +738,7 @@ pub fn fam_ff(tier: Tier) -> Vec<Config> {
                 for retry in 0..=1usize {
                     for via_cli in [false, true] {
                         for err_at in [None, Some(0usize), Some(1)] {
-                            for after in [false, true] {
+                            for (after, sync) in [(false, false), (true, false), (false, true)] {
                                 let mut cfg = base(String::new());
                                 let scs: Vec<ScenSpec> = (0..nsc).map(|_| scen(&[], &[M])).collect();
                                 let (a, b) = scs.split_at(nsc / 2);
@@ -741,7 +758,8 @@ pub fn fam_ff(tier: Tier) -> Vec<Config> {
                                 if retry > 0 {
                                     cfg.retries_builder = Some(retry);
                                 }
-                                cfg.plan.gates = GateMode::Steps;
+                                // `sync`: nothing is gated, scenarios of one batch finish in lock-step
+                                cfg.plan.gates = if sync { GateMode::None } else { GateMode::Steps };
                                 let infos = cfg.scen_infos();
                                 if failing < nsc {
                                     // fails on every attempt: final failure
@@ -767,9 +785,10 @@ pub fn fam_ff(tier: Tier) -> Vec<Config> {
                                 }
                                 cfg.max_execs = if tier == Tier::Quick { 2_000 } else { 200_000 };
                                 cfg.name = format!(
-                                    "ff/n{nsc}|f{failing}|c{conc:?}|r{retry}|cli{}|e{err_at:?}|a{}",
+                                    "ff/n{nsc}|f{failing}|c{conc:?}|r{retry}|cli{}|e{err_at:?}|a{}|sync{}",
                                     u8::from(via_cli),
-                                    u8::from(after)
+                                    u8::from(after),
+                                    u8::from(sync)
                                 );
                                 out.push(cfg);
                             }
@@ -995,6 +1014,79 @@ pub fn fam_verdict(tier: Tier) -> Vec<Config> {
     out
 }
 
+/// Poll-granular exploration (two releases before a poll, releases between
+/// any two polls) of small fail-fast / serial / retry-delay / limit configs.
+pub fn fam_l1x(tier: Tier) -> Vec<Config> {
+    let mut out = Vec::new();
+    let bound = 2;
+    let cap = if tier == Tier::Quick { 1_500 } else { 400_000 };
+    let finish = |mut c: Config, name: String, out: &mut Vec<Config>| {
+        c.gran = Gran::L1;
+        c.bound = Some(if tier == Tier::Quick { bound } else { 3 });
+        c.max_execs = cap;
+        c.plan.gates = GateMode::Steps;
+        c.name = name;
+        out.push(c);
+    };
+    // fail-fast
+    for failing in 0..2usize {
+        for conc in [Some(2usize), Some(3)] {
+            let mut c = base(String::new());
+            c.feats = vec![feat((0..4).map(|_| scen(&[], &[M])).collect())];
+            c.items = vec![Item::Feat(0)];
+            c.conc_builder = Some(conc);
+            c.fail_fast_builder = true;
+            let infos = c.scen_infos();
+            c.plan.outcomes.insert(infos[failing].calls[0].key.clone(), vec![Outcome::PanicString]);
+            finish(c, format!("l1x/ff|f{failing}|c{conc:?}"), &mut out);
+        }
+    }
+    // serial next to concurrent ones, eager and lazy
+    for lazy in [false, true] {
+        for retry in [false, true] {
+            let mut c = base(String::new());
+            let mut t = vec!["serial"];
+            if retry {
+                t.push("retry(1)");
+            }
+            c.feats = vec![feat(vec![scen(&[], &[M]), scen(&[], &[M])]), feat(vec![scen(&t, &[M])])];
+            c.items = vec![Item::Feat(0), Item::Feat(1)];
+            c.conc_builder = Some(Some(2));
+            c.lazy = lazy;
+            if retry {
+                let infos = c.scen_infos();
+                c.plan.outcomes.insert(infos[2].calls[0].key.clone(), vec![Outcome::PanicString, Outcome::Pass]);
+            }
+            finish(c, format!("l1x/serial|lazy{}|r{}", u8::from(lazy), u8::from(retry)), &mut out);
+        }
+    }
+    // delayed retry with the clock moving between polls
+    for serial in [false, true] {
+        let mut c = base(String::new());
+        let mut t = vec!["retry(1).after(5s)"];
+        if serial {
+            t.push("serial");
+        }
+        c.feats = vec![feat(vec![scen(&t, &[M])]), feat(vec![scen(&[], &[M])])];
+        c.items = vec![Item::Feat(0), Item::Feat(1)];
+        c.conc_builder = Some(Some(2));
+        c.clock_budget = 1;
+        c.clock_step = Duration::from_secs(6);
+        let infos = c.scen_infos();
+        c.plan.outcomes.insert(infos[0].calls[0].key.clone(), vec![Outcome::PanicString, Outcome::Pass]);
+        finish(c, format!("l1x/delay|s{}", u8::from(serial)), &mut out);
+    }
+    // limit
+    for conc in [Some(1usize), Some(2)] {
+        let mut c = base(String::new());
+        c.feats = vec![feat((0..3).map(|_| scen(&[], &[M])).collect())];
+        c.items = vec![Item::Feat(0)];
+        c.conc_builder = Some(conc);
+        finish(c, format!("l1x/conc|c{conc:?}"), &mut out);
+    }
+    out
+}
+
 pub fn family(name: &str, tier: Tier) -> Vec<Config> {
     match name {
         "seq" => fam_seq(tier),
@@ -1006,22 +1098,32 @@ pub fn family(name: &str, tier: Tier) -> Vec<Config> {
         "panic" => fam_panic(tier),
         "l1" => fam_l1(tier),
         "verdict" => fam_verdict(tier),
+        "l1x" => fam_l1x(tier),
         other => panic!("unknown family {other}"),
     }
 }
 
-/// Families that drive a property.
-pub fn families_for(prop: &str) -> &'static [&'static str] {
-    match prop {
+/// Families that drive a property: its own sharp drivers first, then every
+/// other family (all oracles are evaluated on every execution anyway, and a
+/// defect often shows under a driver built for a neighbouring property).
+pub fn families_for(prop: &str) -> Vec<&'static str> {
+    let own: &[&str] = match prop {
         "C02" => &["seq", "l1"],
         "C03" => &["frame", "l1"],
         "C04" => &["frame", "retry", "l1"],
-        "C05" => &["retry", "seq", "l1"],
-        "C06" => &["conc", "l1"],
+        "C05" => &["retry", "serial", "seq", "l1"],
+        "C06" => &["conc", "serial", "l1"],
         "C07" => &["serial", "l1"],
         "C08" => &["ff", "l1"],
         "C09" => &["seq", "l1"],
         "C10" => &["panic", "seq"],
         other => panic!("no Engine A families for {other}"),
+    };
+    let mut v: Vec<&'static str> = own.to_vec();
+    for f in ["seq", "frame", "conc", "serial", "retry", "ff", "panic", "l1", "l1x"] {
+        if !v.contains(&f) {
+            v.push(f);
+        }
     }
+    v
 }
